@@ -60,7 +60,7 @@ def dispatcher(out, mc, fns, pending):
         return
     fn = fn[0]
     ob.functions = [fn.name]
-    ex = symex.Executor(fns, enums=ENUMS, max_visits=2, max_paths=20000)
+    ex = symex.Executor(fns, enums=ENUMS, max_visits=symex.visits(2), max_paths=20000)
     st = symex.State()
     t0 = time.time()
     paths = ex.run(fn, coroutine_args(ex, st), st)
@@ -120,7 +120,7 @@ def dispatcher(out, mc, fns, pending):
     fails2 = []
     good = 0
     for b in blocks:
-        exb = symex.Executor(fns, enums=ENUMS, max_visits=2)
+        exb = symex.Executor(fns, enums=ENUMS, max_visits=symex.visits(2))
         stb = symex.State()
         ps = exb.run(b, coroutine_args(exb, stb), stb)
         ok_here = 0
@@ -165,7 +165,7 @@ def task_wrapper(out, mc, fns, pending):
         ob.status = ob2.status = "inconclusive"
         ob.detail = ob2.detail = "task wrapper not found in MIR"
         return
-    ex = symex.Executor(fns, enums=ENUMS, max_visits=2)
+    ex = symex.Executor(fns, enums=ENUMS, max_visits=symex.visits(2))
     st = symex.State()
     paths = ex.run(outer[0], coroutine_args(ex, st), st)
     fails = []
@@ -194,7 +194,7 @@ def task_wrapper(out, mc, fns, pending):
     else:
         ob.status = "pass"
     # the spawned future
-    ex = symex.Executor(fns, enums=ENUMS, max_visits=2)
+    ex = symex.Executor(fns, enums=ENUMS, max_visits=symex.visits(2))
     st = symex.State()
     paths = ex.run(inner[0], coroutine_args(ex, st), st)
     fails = []
@@ -249,7 +249,7 @@ def routing(out, mc, fns, pending):
         ob.status = "inconclusive"
         ob.detail = "handle_message not found"
         return
-    ex = symex.Executor(fns, enums=ENUMS, max_visits=2)
+    ex = symex.Executor(fns, enums=ENUMS, max_visits=symex.visits(2))
     st = symex.State()
     paths = ex.run(fn[0], coroutine_args(ex, st), st)
     fails = []
@@ -294,7 +294,7 @@ def handshake(out, mc, pending):
         ob.status = "inconclusive"
         ob.detail = "run_ls not found"
         return
-    ex = symex.Executor(fns, enums=ENUMS, max_visits=3)
+    ex = symex.Executor(fns, enums=ENUMS, max_visits=symex.visits(3))
 
     def m_unwrap(ex_, st, cname, args, dest_ty, fn_):
         v = args[0]
